@@ -56,6 +56,8 @@ def _key(e):
 
 def mk_bin(op, ty, a, b):
     bits = _bits(ty)
+    if op == "sub" and a[0] == "pint" and b[0] == "pint" and a[1] == b[1] and a[3] == b[3] == ty:
+        return mk_bin("sub", ty, a[2], b[2])       # (P + x) - (P + y) == x - y
     if bits and is_c(a) and is_c(b):
         x, y, sx, sy = a[2], b[2], sval(a), sval(b)
         if op == "add":
@@ -350,6 +352,8 @@ def mk_icmp(pred, ty, a, b):
 
 def mk_cast(op, ty, a, ty2):
     b1, b2 = _bits(ty), _bits(ty2)
+    if op == "trunc" and a[0] == "pint" and a[3] == ty:
+        return ("pint", a[1], mk_cast("trunc", ty, a[2], ty2), ty2)
     if b1 and b2 and is_c(a):
         if op == "zext":
             return C(b2, a[2])
@@ -778,6 +782,33 @@ def gated(mod, fn, max_paths=4000, control_only=False):
         if "@" in body:
             body = irmod._GLOB_RE.sub(lambda m: irmod._global_content(mod, m.group(0)), body)
         op = body.split(" ", 1)[0]
+        if op == "getelementptr":
+            # byte pointer arithmetic: a pointer is (base, byte offset); offsets add up
+            m = re.match(r"^getelementptr (?:inbounds )?i8, i8\* (\S+), (i\d+) (\S+)$", body)
+            if m:
+                base = operand(m.group(1), "i8*", env)
+                off = operand(m.group(3), m.group(2), env)
+                if m.group(2) != "i64":
+                    off = mk_cast("sext", m.group(2), off, "i64")
+                if base[0] == "padd":
+                    return ("padd", base[1], mk_bin("add", "i64", base[2], off))
+                return ("padd", base, off)
+        if op == "icmp":
+            m = re.match(r"^icmp (\w+) i8\* ([^,]+), (.+)$", body)
+            if m:
+                a, b = operand(m.group(2), "i8*", env), operand(m.group(3), "i8*", env)
+                pa = a if a[0] == "padd" else ("padd", a, C(64, 0))
+                pb = b if b[0] == "padd" else ("padd", b, C(64, 0))
+                if pa[1] == pb[1]:
+                    # same base object (inbounds arithmetic never wraps): the order of the pointers is the order of the offsets
+                    pred = {"ugt": "sgt", "uge": "sge", "ult": "slt", "ule": "sle"}.get(m.group(1), m.group(1))
+                    return mk_icmp(pred, "i64", pa[2], pb[2])
+        if op == "ptrtoint":
+            m = re.match(r"^ptrtoint i8\* (\S+) to (i\d+)$", body)
+            if m:
+                a = operand(m.group(1), "i8*", env)
+                pa = a if a[0] == "padd" else ("padd", a, C(64, 0))
+                return ("pint", pa[1], pa[2] if m.group(2) == "i64" else mk_cast("trunc", "i64", pa[2], m.group(2)), m.group(2))
         if op in _INT_BIN:
             m = re.match(r"^(\w+) (\S+) ([^,]+), (.+)$", body)
             if m and _bits(m.group(2)):
